@@ -134,8 +134,11 @@ def run_suite(name: str, seed: int, n_hist: int, struct: bool, oracles=(), max_o
         hists = list(corpus or [])
         for i in range(n_hist):
             kw = dict(gen_kw or {})
-            if gen is gen_history and "force" not in kw and i < 6 and n_hist >= 100:
-                kw["force"] = "wide" if i < 3 else "big"
+            if gen is gen_history and "force" not in kw and i < 14 and n_hist >= 100:
+                kw["force"] = ("wide", "wide", "wide", "big", "big", "big", "big255", "big255", "big255", "offset", "offset", "offset",
+                               "offset", "offset")[i]
+                if kw["force"] == "offset" and "refine" not in kw.get("allow", ("refine",)):
+                    kw.pop("force")
             h = gen(rng, max_ops=max_ops, max_rows=max_rows, **kw)
             if per_insert_every and i % per_insert_every == 0:
                 h = expand_per_insert(h)
